@@ -85,8 +85,23 @@ def check_encode_purity(rep, case, rng):
         rep.count('encode-purity')
 
 
+def type_shape(obj, depth=0):
+    """snapshot of a schema object including the DEFAULT values it declares (they are shared objects)"""
+    if depth > 10:
+        return '...'
+    out = [shape(obj)]
+    ct = getattr(obj, 'componentType', None)
+    if ct is not None and ct is not pbase.noValue:
+        if hasattr(ct, 'namedTypes'):
+            for nt in ct.namedTypes:
+                out.append((nt.name, nt.isDefaulted, type_shape(nt.asn1Object, depth + 1)))
+        elif isinstance(ct, pbase.Asn1Item):
+            out.append(type_shape(ct, depth + 1))
+    return out
+
+
 def schema_shape(case):
-    return shape(case.schema), repr(case.schema.tagSet), case.schema.isValue
+    return type_shape(case.schema), repr(case.schema.tagSet), case.schema.isValue
 
 
 def check_decode_purity(rep, case, rng):
@@ -113,6 +128,13 @@ def check_decode_purity(rep, case, rng):
         pass
     if snapshot(case, o2, None) != s2:
         rep.fail('decoded-results-share-state', 'mutating one decoded result changed another', replay)
+    try:
+        o3, _ = codec.DEC[mode[0]].decode(data, asn1Spec=case.schema)
+        a3 = gen.val_sexp(gen.abstract(case.t, o3))
+        if a3 != s2['abstract']:
+            rep.fail('decode-depends-on-earlier-results', 'decoding again after mutating an earlier result gives %s, before %s' % (a3[:150], s2['abstract'][:150]), replay)
+    except Exception:  # noqa
+        pass
     if schema_shape(case) != before:
         rep.fail('decoded-result-shares-state-with-spec', 'mutating a decoded result changed the guiding type', replay)
     rep.count('decode-purity')
@@ -127,14 +149,22 @@ def mutate_all(obj, depth=0):
         return
     if isinstance(obj, (univ.Sequence, univ.Set)):
         for i in range(len(obj.componentType) if obj.componentType else len(obj)):
-            c = obj.getComponentByPosition(i, default=None, instantiate=False)
-            if c is not None:
+            # the ordinary accessor: an absent DEFAULT member is materialised from the declared default
+            try:
+                c = obj.getComponentByPosition(i)
+            except Exception:  # noqa
+                c = None
+            if c is not None and c is not pbase.noValue:
                 mutate_all(c, depth + 1)
         obj.clear()
         return
     if isinstance(obj, (univ.SequenceOf, univ.SetOf)):
         for i in range(len(obj)):
             mutate_all(obj.getComponentByPosition(i, instantiate=False), depth + 1)
+        try:
+            obj.append(obj.componentType.clone() if not isinstance(obj.componentType, pbase.SimpleAsn1Type) else obj.componentType.clone(0))
+        except Exception:  # noqa
+            pass
         obj.clear()
 
 
@@ -267,14 +297,27 @@ def run(rep, tier, seed):
                 'everything repeated with debug logging on; non-trivial = type depth>=1 or tagged')
     rep.assumptions = ['thread schedules are sampled (CPython GIL granularity), not enumerated', 'object snapshots read private component storage without instantiating']
     pool = []
+    # corpus: DEFAULT members of constructed type, nested (the default object is shared by every decode)
+    from harness import sexp_types
+    CORPUS = [
+        ("(seq (r int) (d (seq (of (i 1) (i 2) (i 3)) (i 9)) (seq (r (seqof int)) (r int))))", "(seq (i 7) (seq (of (i 1) (i 2) (i 3)) (i 9)))"),
+        ("(seq (d (of (of (i 1)) (of)) (seqof (seqof int))) (r bool))", "(seq (of (of (i 1)) (of)) (b 1))"),
+        ("(set (d (seq (seq (i 1) (b 1))) (tag e c 0 (seq (r (set (r int) (r bool)))))) (r null))", "(seq (seq (seq (i 1) (b 1))) null)"),
+        ("(seq (d (ch 0 (of (i 5))) (tag e c 1 (choice (r (seqof int)) (r bool)))))", "(seq (ch 0 (of (i 5))))"),
+    ]
+    for ts, vs in CORPUS:
+        c = engine.Case(sexp_types.ty_of_sexp(gen.parse_sexps(ts)[0]), gen.val_of_sexp(gen.parse_sexps(vs)[0]))
+        rep.case('corpus ' + c.canon)
+        for _ in range(3):
+            check_decode_purity(rep, c, rng)
     for case in engine.gen_cases(rng, n, max_depth=3, allow_any=True):
         if not engine.representable(case):
             continue
+        rep.case(case.canon, nontrivial=gen.nontrivial(case.t), sample={'type': gen.ty_sexp(case.t)[:200], 'value': gen.val_sexp(case.v)[:200]})
+        check_decode_purity(rep, case, rng)
         if sigs.has_constructed_default(case.t) or sigs.has_real_default(case.t):
             continue      # == on those values raises by itself (findings T11/T12 of C01)
-        rep.case(case.canon, nontrivial=gen.nontrivial(case.t), sample={'type': gen.ty_sexp(case.t)[:200], 'value': gen.val_sexp(case.v)[:200]})
         check_encode_purity(rep, case, rng)
-        check_decode_purity(rep, case, rng)
         if len(pool) < 400:
             pool.append(case)
     for i in range(60 if tier == 'quick' else 3000):
